@@ -230,13 +230,15 @@ def time_limit(seconds):
     def handler(signum, frame):
         raise Timeout()
 
-    old = signal.signal(signal.SIGALRM, handler)
-    signal.setitimer(signal.ITIMER_REAL, seconds)
+    # CPU time of this process, not wall-clock time: a loaded or stalled machine cannot turn a call that
+    # terminates into a "did not return" (the run as a whole has a wall-clock watchdog: exit 2)
+    old = signal.signal(signal.SIGVTALRM, handler)
+    signal.setitimer(signal.ITIMER_VIRTUAL, seconds)
     try:
         yield
     finally:
-        signal.setitimer(signal.ITIMER_REAL, 0)
-        signal.signal(signal.SIGALRM, old)
+        signal.setitimer(signal.ITIMER_VIRTUAL, 0)
+        signal.signal(signal.SIGVTALRM, old)
 
 
 @contextlib.contextmanager
